@@ -151,6 +151,10 @@ L_CLASSES = [
     'pushmeta aa:1',
     # number spellings: explicit plus, parentheses, a zero divisor, a compound cost glued to its hash
     '2000-01-01 *\n  Assets:Foo +1 USD {1.10# 11.00 USD}\n  Assets:Bar (1 + 2)EUR @@(3)GBP\n  Assets:Baz 1/0 USD',
+    # meta values of every kind (simplified and preserved ones), a duplicate key
+    '2000-01-01 open Assets:Foo\n  aa: 10.50 EUR\n  bb: Assets:Bar\n  cc: #t\n  dd: TRUE\n  ee: NULL\n  ff: 2000-01-01\n  gg: "s"\n  hh: USD\n  aa: 1 + 2',
+    # cost components in unusual order
+    '2000-01-01 *\n  Assets:Foo 1 USD {2000-01-01, 1.50 EUR, "lot"}\n  Assets:Bar 1 USD {"lot", *, 2 # 3 EUR}',
     # comments whose indentation differs from their owner's
     '2000-01-01 *\n\t; c\n  Assets:Foo\n      ; d',
 ]
